@@ -231,3 +231,36 @@ Example C02_two_matches_still_round_trip :
   let lines := [L ""; L """'="; L ""; L ""] in
   client_matches lines = 2 /\ client_embed lines = EvOk (embedded 12 lines) client_suffix.
 Proof. split; vm_compute; reflexivity. Qed.
+
+(* ================================================================= D. is the indentation uniform? *)
+(* GraphQL ignores indentation outside block strings; inside a block string only a UNIFORM indentation of
+   the non-empty lines is harmless.  Full statement: every non-empty line gets the same k blanks. *)
+Definition C02_indent_uniform_full : Prop := forall lines,
+  2 <= List.length lines -> Forall (fun l => has NL l = false) lines ->
+  Forall (fun l => has SQ l = false) lines ->
+  client_embed lines = EvOk (uniform 12 lines) client_suffix.
+
+(* guard: no line made of blanks only (textwrap.indent leaves such a line where it is) — the complement
+   is finding class C02-block-string-blank-line *)
+Theorem C02_indent_uniform_partial : forall lines,
+  2 <= List.length lines -> Forall (fun l => has NL l = false) lines ->
+  Forall (fun l => has SQ l = false) lines -> existsb only_blanks lines = false ->
+  client_embed lines = EvOk (uniform 12 lines) client_suffix.
+Proof.
+  intros lines H2 Hn Hq Hb. rewrite <- embedded_uniform by exact Hb.
+  apply C02_embed_client_without_quote; assumption.
+Qed.
+Print Assumptions C02_indent_uniform_partial.
+
+(* a block string whose second line is three blanks: that line stays unindented, the common indentation of
+   the block string swallows its blanks *)
+Theorem C02_indent_uniform_refuted : ~ C02_indent_uniform_full.
+Proof.
+  intro H.
+  specialize (H [L "query A {"; L "  echo(s: """""""; L "  a"; L "     "; L "  b"; L "  """""")"; L "}"]).
+  assert (E : client_embed [L "query A {"; L "  echo(s: """""""; L "  a"; L "     "; L "  b"; L "  """""")"; L "}"]
+              <> EvOk (uniform 12 [L "query A {"; L "  echo(s: """""""; L "  a"; L "     "; L "  b"; L "  """""")"; L "}"])
+                      client_suffix) by (vm_compute; discriminate).
+  apply E, H; [simpl; repeat constructor | repeat constructor | repeat constructor].
+Qed.
+Print Assumptions C02_indent_uniform_refuted.
